@@ -75,7 +75,7 @@ if h and drv:
 c.finish(
     assumptions=[
         "conforming files: every object number at most once per revision, section offsets distinct and inside the file, xref stream fields within the ranges of ISO 32000-2 Table 18 (wf_chain)",
-        "resolve_refines excludes hybrid sections that hide an object (free marker in the table, real entry in /XRefStm): no_hidden; finding C04-hidden",
+        "hybrid sections: a number may be listed both in the table and in /XRefStm only as a hidden object (free in the table); the stream's entry wins (fix F39); a conflict of two in-use entries is outside conforming files",
         "the original section (no /Prev) does not begin with the mis-numbered pattern `1 n / 0000000000 65535` (ISO 32000 7.5.4 requires it to begin at object 0)",
         "H-regexp: Go's regexp finds the leftmost match of [\\r\\n]endstream (Extent.find_eol_endstream)",
         "the reader keeps only the trailer keys Root, Encrypt, Info, ID and second/third-class names (keep_trailer)",
@@ -87,7 +87,7 @@ c.finish(
         "the 30-line Go reference model in harness/c04 (reference()) used as the direct oracle",
     ],
     partial=[
-        "resolve_refines_refuted / resolve_refines_unguarded_is_false: the refinement without no_hidden is false of the faithful model (hidden objects of hybrid files); resolve_refines is proved under no_hidden. resolve_refines_pre_F22_refuted documents the pre-fix model variant",
+        "resolve_refines is a full theorem (no guard). resolve_refines_pre_F22_refuted and resolve_refines_pre_F39_refuted document named pre-fix variants of the model",
         "read_render (Reader.open (render h c) = spec_resolve h for all c) is not proved: the parser of whole files is not modelled; render is extracted and its output is opened by the real Reader on every run instead",
     ],
 )
